@@ -510,28 +510,40 @@ impl World {
         }
     }
 
-    /// `op["reentry"]`: exec operations of a hostile contract, performed by it re-entrantly (hostile.rs)
-    fn set_reentry(&mut self, op: &Value) {
+    /// `op["reentry"]`: exec operations of a hostile contract, performed by it re-entrantly (hostile.rs).  An element may carry
+    /// a `reentry` list of its own (the program that runs if that nested call is re-entered, model/ReentryDeep.v): then every
+    /// element of every level gets a `prog` field (deep mode).
+    fn prog_of(&self, arr: &[Value], deep: bool) -> Vec<Value> {
         let mut prog = vec![];
-        if let Some(arr) = op.get("reentry").and_then(|x| x.as_array()) {
-            for n in arr {
-                match n["t"].as_str() {
-                    // the hostile contract sends honest tokens it holds to the marketplace (Send / SendNft on the token)
-                    Some("cw20_send") => {
-                        let inner = serde_json::to_vec(&n["inner"]).unwrap_or_default();
-                        prog.push(json!({"to": n["token"], "funds": [],
-                                         "msg": {"send": {"contract": self.market.as_str(), "amount": n["amount"], "msg": Binary::from(inner)}}}));
-                    }
-                    Some("nft_send") => {
-                        let inner = serde_json::to_vec(&n["inner"]).unwrap_or_default();
-                        prog.push(json!({"to": n["coll"], "funds": [],
-                                         "msg": {"send_nft": {"contract": self.market.as_str(), "token_id": n["token_id"], "msg": Binary::from(inner)}}}));
-                    }
-                    // a plain call of the marketplace
-                    _ => prog.push(json!({"to": self.market.as_str(), "msg": n["msg"], "funds": n["funds"]})),
+        for n in arr {
+            let mut e = match n["t"].as_str() {
+                // the hostile contract sends honest tokens it holds to the marketplace (Send / SendNft on the token)
+                Some("cw20_send") => {
+                    let inner = serde_json::to_vec(&n["inner"]).unwrap_or_default();
+                    json!({"to": n["token"], "funds": [],
+                           "msg": {"send": {"contract": self.market.as_str(), "amount": n["amount"], "msg": Binary::from(inner)}}})
                 }
+                Some("nft_send") => {
+                    let inner = serde_json::to_vec(&n["inner"]).unwrap_or_default();
+                    json!({"to": n["coll"], "funds": [],
+                           "msg": {"send_nft": {"contract": self.market.as_str(), "token_id": n["token_id"], "msg": Binary::from(inner)}}})
+                }
+                // a plain call of the marketplace
+                _ => json!({"to": self.market.as_str(), "msg": n["msg"], "funds": n["funds"]}),
+            };
+            if deep {
+                let sub = n.get("reentry").and_then(|x| x.as_array()).cloned().unwrap_or_default();
+                e["prog"] = Value::Array(self.prog_of(&sub, true));
             }
+            prog.push(e);
         }
+        prog
+    }
+
+    fn set_reentry(&mut self, op: &Value) {
+        let arr: Vec<Value> = op.get("reentry").and_then(|x| x.as_array()).cloned().unwrap_or_default();
+        let deep = arr.iter().any(|n| n.get("reentry").and_then(|x| x.as_array()).map(|a| !a.is_empty()).unwrap_or(false));
+        let prog = self.prog_of(&arr, deep);
         self.shared.borrow_mut().reentry = prog;
     }
 
